@@ -1,2 +1,308 @@
-pub fn gen(_seed: u64, _thorough: bool) -> Vec<String> { vec![] }
-pub fn run(_line: &str) -> Option<(String, Vec<String>)> { None }
+//! C20: image views exist only for addressable geometry.
+//!
+//! `N <s|m> <len> <w> <h> <color>`                         ImageView{,Mut}::new
+//! `W <s|m> <len> <pitch> <w> <h> <color>`                 new_with (+ rows)
+//! `C <s|m> <len> <pitch> <w> <h> <color> <ox> <oy> <cw> <ch>`   new_with, then cropped (+ rows)
+use crate::common::*;
+use dds::*;
+
+pub fn colors() -> Vec<ColorFormat> {
+    let mut v = vec![];
+    for p in [Precision::U8, Precision::U16, Precision::F32] {
+        for c in [Channels::Grayscale, Channels::Alpha, Channels::Rgb, Channels::Rgba] {
+            v.push(ColorFormat::new(c, p));
+        }
+    }
+    v
+}
+
+pub fn gen(seed: u64, thorough: bool) -> Vec<String> {
+    let mut rng = Rng::new(seed);
+    let n = if thorough { 3_000_000 } else { 200_000 };
+    let mut out = Vec::with_capacity(n);
+    let bset = boundary_u32();
+    let pitches: Vec<u64> = {
+        let mut v: Vec<u64> = vec![0, 1, 2, 3, 4, 5, 7, 8, 12, 15, 16, 17, 31, 32, 33, 48, 63, 64, 65, 100, 255, 256, 1000, 4095, 4096, 4097];
+        for k in [16u32, 31, 32, 33, 47, 48, 52, 60, 61, 62, 63] {
+            let p = 1u64 << k;
+            v.push(p - 1);
+            v.push(p);
+            v.push(p + 1);
+        }
+        v.push(u64::MAX);
+        v.push(u64::MAX - 1);
+        v.push(u64::MAX / 2);
+        v.push(u64::MAX / 2 + 1);
+        v.push(u64::MAX / 3);
+        v.push(u64::MAX / 3 + 1);
+        v
+    };
+    let small = |rng: &mut Rng| -> u32 {
+        match rng.below(10) {
+            0 => 0,
+            1..=6 => rng.range(1, 9) as u32,
+            7 => rng.range(1, 70) as u32,
+            8 => *rng.pick(&[65535u32, 65536, 65537, 1 << 20, (1 << 31) - 1, 1 << 31, u32::MAX - 1, u32::MAX]),
+            _ => *rng.pick(&bset),
+        }
+    };
+    while out.len() < n {
+        let kind = if rng.chance(1, 2) { "s" } else { "m" };
+        let color = rng.below(12);
+        let bpp = colors()[color as usize].bytes_per_pixel() as u64;
+        let w = small(&mut rng);
+        let h = small(&mut rng);
+        match rng.below(10) {
+            0..=1 => {
+                // contiguous constructor: exact length, off by one, arbitrary
+                let exact = (w as u128 * h as u128 * bpp as u128).min(5000) as u64;
+                let len = match rng.below(5) {
+                    0..=1 => exact,
+                    2 => exact.saturating_sub(1),
+                    3 => exact + 1,
+                    _ => rng.below(4097),
+                };
+                if len <= 4200 {
+                    out.push(format!("N {kind} {len} {w} {h} {color}"));
+                }
+            }
+            _ => {
+                let bpr = w as u128 * bpp as u128;
+                let pitch: u64 = match rng.below(10) {
+                    0..=2 => bpr.min(u64::MAX as u128) as u64,
+                    3 => (bpr.min(u64::MAX as u128) as u64).saturating_add(rng.range(1, 9)),
+                    4 => (bpr.min(u64::MAX as u128) as u64).saturating_sub(1),
+                    5..=6 => *rng.pick(&pitches),
+                    7 => rng.below(200),
+                    8 => {
+                        // pitch such that pitch*(h-1) is near 2^64
+                        let hm = (h as u64).saturating_sub(1).max(1);
+                        (u64::MAX / hm).saturating_add(rng.below(3)).saturating_sub(rng.below(3))
+                    }
+                    _ => rng.next(),
+                };
+                let need = (pitch as u128) * (h.saturating_sub(1) as u128) + bpr;
+                let len = match rng.below(6) {
+                    0..=1 => need.min(4200) as u64,
+                    2 => (need.min(4200) as u64).saturating_sub(1),
+                    3 => need.min(4200) as u64 + rng.range(1, 5),
+                    4 => rng.below(4097),
+                    _ => *rng.pick(&[0u64, 1, 2, 64, 4096]),
+                };
+                if rng.chance(1, 2) {
+                    out.push(format!("W {kind} {len} {pitch} {w} {h} {color}"));
+                } else {
+                    // crop rectangles: inside, touching the border, outside, empty, overflowing
+                    let pick = |rng: &mut Rng, dim: u32| -> (u32, u32) {
+                        match rng.below(8) {
+                            0 => (0, dim),
+                            1 => {
+                                let o = rng.below(dim as u64 + 1) as u32;
+                                (o, rng.below((dim - o) as u64 + 1) as u32)
+                            }
+                            2 => {
+                                let o = rng.below(dim as u64 + 1) as u32;
+                                (o, (dim - o).saturating_add(1))
+                            }
+                            3 => (rng.below(dim as u64 + 2) as u32, 0),
+                            4 => (u32::MAX, rng.below(3) as u32),
+                            5 => (rng.below(3) as u32, u32::MAX),
+                            6 => (dim, 0),
+                            _ => {
+                                let o = rng.below(dim as u64 + 1) as u32;
+                                (o, rng.range(0, 2).min((dim - o) as u64) as u32)
+                            }
+                        }
+                    };
+                    let (ox, cw) = pick(&mut rng, w);
+                    let (oy, ch) = pick(&mut rng, h);
+                    out.push(format!("C {kind} {len} {pitch} {w} {h} {color} {ox} {oy} {cw} {ch}"));
+                }
+            }
+        }
+    }
+    out
+}
+
+fn fmt_rows(rows: &[(usize, usize)]) -> String {
+    let mut s = format!("{};", rows.len());
+    let show: Vec<usize> = if rows.len() <= 8 {
+        (0..rows.len()).collect()
+    } else {
+        vec![0, 1, 2, rows.len() - 2, rows.len() - 1]
+    };
+    s += &show.iter().map(|i| format!("{}:{}", rows[*i].0, rows[*i].1)).collect::<Vec<_>>().join(",");
+    s
+}
+
+struct Obs {
+    w: u32,
+    h: u32,
+    pitch: usize,
+    len: usize,
+    base: usize,
+    rows: Vec<(usize, usize)>,
+}
+impl Obs {
+    fn fmt(&self) -> String {
+        let base = if self.len == 0 { "-".to_string() } else { self.base.to_string() };
+        format!("some {} {} {} {} {} {}", self.w, self.h, self.pitch, self.len, base, fmt_rows(&self.rows))
+    }
+}
+
+fn observe_shared(v: ImageView, buf_base: usize) -> Obs {
+    let base = (v.data().as_ptr() as usize).wrapping_sub(buf_base);
+    let rows: Vec<(usize, usize)> = v.rows().map(|r| ((r.as_ptr() as usize).wrapping_sub(buf_base), r.len())).collect();
+    Obs { w: v.width(), h: v.height(), pitch: v.row_pitch(), len: v.data().len(), base, rows }
+}
+fn observe_mut(mut v: ImageViewMut, buf_base: usize) -> Obs {
+    let base = (v.data().as_ptr() as usize).wrapping_sub(buf_base);
+    let (w, h, pitch, len) = (v.width(), v.height(), v.row_pitch(), v.data().len());
+    let rows: Vec<(usize, usize)> = v.rows_mut().map(|r| ((r.as_ptr() as usize).wrapping_sub(buf_base), r.len())).collect();
+    Obs { w, h, pitch, len, base, rows }
+}
+
+pub fn run(line: &str) -> Option<(String, Vec<String>)> {
+    let t = toks(line);
+    let mut oracle = vec![];
+    let cols = colors();
+    match t[0] {
+        "N" => {
+            let shared = t[1] == "s";
+            let len = p_usize(t[2])?;
+            let (w, h) = (p_u32(t[3])?, p_u32(t[4])?);
+            let color = *cols.get(p_usize(t[5])?)?;
+            let bpp = color.bytes_per_pixel() as u128;
+            let mut buf = vec![0u8; len];
+            let base = buf.as_ptr() as usize;
+            let obs = if shared {
+                ImageView::new(&buf, Size::new(w, h), color).map(|v| observe_shared(v, base))
+            } else {
+                ImageViewMut::new(&mut buf, Size::new(w, h), color).map(|v| observe_mut(v, base))
+            };
+            // oracle: exactly when the length matches
+            let empty = w == 0 || h == 0;
+            let expect = if empty { len == 0 } else { len as u128 == w as u128 * h as u128 * bpp };
+            if obs.is_some() != expect {
+                oracle.push(format!("new: returned {} but length match is {}", obs.is_some(), expect));
+            }
+            if let Some(o) = &obs {
+                check_rows(o, bpp as usize, len, &mut oracle);
+            }
+            Some((obs.map(|o| o.fmt()).unwrap_or("none".into()), oracle))
+        }
+        "W" | "C" => {
+            let shared = t[1] == "s";
+            let len = p_usize(t[2])?;
+            let pitch: usize = t[3].parse().ok()?;
+            let (w, h) = (p_u32(t[4])?, p_u32(t[5])?);
+            let color = *cols.get(p_usize(t[6])?)?;
+            let bpp = color.bytes_per_pixel() as u128;
+            let mut buf = vec![0u8; len];
+            let base = buf.as_ptr() as usize;
+            // oracle for the constructor, in u128
+            let empty = w == 0 || h == 0;
+            let expect = if empty {
+                true
+            } else {
+                pitch as u128 >= w as u128 * bpp
+                    && pitch as u128 * (h as u128 - 1) + w as u128 * bpp <= len as u128
+            };
+            if t[0] == "W" {
+                let obs = if shared {
+                    ImageView::new_with(&buf, pitch, Size::new(w, h), color).map(|v| observe_shared(v, base))
+                } else {
+                    ImageViewMut::new_with(&mut buf, pitch, Size::new(w, h), color).map(|v| observe_mut(v, base))
+                };
+                if obs.is_some() != expect {
+                    oracle.push(format!("new_with: returned {} but addressable is {}", obs.is_some(), expect));
+                }
+                if let Some(o) = &obs {
+                    check_rows(o, bpp as usize, len, &mut oracle);
+                    if !empty && (o.pitch != pitch || o.w != w || o.h != h) {
+                        oracle.push("new_with: fields differ from the arguments".into());
+                    }
+                }
+                Some((obs.map(|o| o.fmt()).unwrap_or("none".into()), oracle))
+            } else {
+                let (ox, oy, cw, ch) = (p_u32(t[7])?, p_u32(t[8])?, p_u32(t[9])?, p_u32(t[10])?);
+                let inside = ox as u64 + cw as u64 <= (if empty { 0 } else { w }) as u64
+                    && oy as u64 + ch as u64 <= (if empty { 0 } else { h }) as u64;
+                let res = std::panic::catch_unwind(std::panic::AssertUnwindSafe(|| {
+                    if shared {
+                        ImageView::new_with(&buf, pitch, Size::new(w, h), color)
+                            .map(|v| observe_shared(v.cropped(Offset::new(ox, oy), Size::new(cw, ch)), base))
+                    } else {
+                        ImageViewMut::new_with(&mut buf, pitch, Size::new(w, h), color)
+                            .map(|v| observe_mut(v.cropped(Offset::new(ox, oy), Size::new(cw, ch)), base))
+                    }
+                }));
+                match res {
+                    Err(e) => {
+                        if std::env::var("DDSV_DEBUG").is_ok() { eprintln!("panic: {}", crate::common::panic_msg(&e)); }
+                        if !expect {
+                            oracle.push("crop: panic although the parent view should not exist".into());
+                        } else if inside {
+                            oracle.push("crop: panic for a rectangle inside the parent".into());
+                        }
+                        Some(("panic".into(), oracle))
+                    }
+                    Ok(None) => {
+                        if expect {
+                            oracle.push("new_with: None for addressable geometry".into());
+                        }
+                        Some(("none".into(), oracle))
+                    }
+                    Ok(Some(o)) => {
+                        if !expect {
+                            oracle.push("new_with: Some for non-addressable geometry".into());
+                        }
+                        if !inside {
+                            oracle.push("crop: accepted a rectangle outside the parent".into());
+                        } else {
+                            check_rows(&o, bpp as usize, len, &mut oracle);
+                            let cempty = cw == 0 || ch == 0;
+                            if !cempty {
+                                // row j of the crop is the parent's row oy+j, starting at byte ox*bpp
+                                for (j, r) in o.rows.iter().enumerate() {
+                                    let exp = (oy as usize + j) * pitch + ox as usize * bpp as usize;
+                                    if r.0 != exp || r.1 != cw as usize * bpp as usize {
+                                        oracle.push(format!("crop: row {j} at {}+{} expected {}+{}", r.0, r.1, exp, cw as usize * bpp as usize));
+                                        break;
+                                    }
+                                }
+                                if o.rows.len() != ch as usize || o.w != cw || o.h != ch {
+                                    oracle.push("crop: wrong size / row count".into());
+                                }
+                            } else if !o.rows.is_empty() || o.len != 0 {
+                                oracle.push("crop: empty crop exposes data".into());
+                            }
+                        }
+                        Some((o.fmt(), oracle))
+                    }
+                }
+            }
+        }
+        _ => None,
+    }
+}
+
+/// the rows a view exposes are exactly `height` slices of `width*bpp` bytes at multiples of the pitch, inside the buffer
+fn check_rows(o: &Obs, bpp: usize, buf_len: usize, oracle: &mut Vec<String>) {
+    let empty = o.w == 0 || o.h == 0;
+    let expect_rows = if empty { 0 } else { o.h as usize };
+    if o.rows.len() != expect_rows {
+        oracle.push(format!("rows: {} rows exposed, height is {}", o.rows.len(), expect_rows));
+        return;
+    }
+    for (y, r) in o.rows.iter().enumerate() {
+        if r.0 != o.base + y * o.pitch || r.1 != o.w as usize * bpp {
+            oracle.push(format!("rows: row {y} is {}+{}, expected {}+{}", r.0, r.1, o.base + y * o.pitch, o.w as usize * bpp));
+            return;
+        }
+        if r.0 + r.1 > buf_len {
+            oracle.push(format!("rows: row {y} reaches outside the buffer"));
+            return;
+        }
+    }
+}
